@@ -236,8 +236,13 @@ func (p *parser) parseFloat(n *yaml.Node) *Float {
 	}
 
 	f, err := strconv.ParseFloat(n.Value, 64)
-	if err != nil || math.IsNaN(f) {
+	if err != nil {
 		p.errorf(n, "invalid float value: %q: %s", n.Value, err.Error())
+		return nil
+	}
+	if math.IsNaN(f) {
+		// strconv.ParseFloat accepts "nan" without an error, so err is nil here
+		p.errorf(n, "invalid float value: %q: not a number", n.Value)
 		return nil
 	}
 
